@@ -27,16 +27,17 @@ CFG = {
                   "list.go. widgets/pager: the laid-out lines reproduce every character of every text incl. an unterminated "
                   "last line, respect the width, and Draw clamps the offset - proved for all texts/widths/offsets. "
                   "widgets/scrollbar: bar inside the track proved for all valid positions. vxfw/list Dynamic: layout "
-                  "(order, contiguity, heights) proved for one Draw from ANY state for gap = 0 or no upward scroll; no panic "
-                  "for an empty builder over all histories; selected item visible after SetCursor/NextItem/PrevItem + Draw "
-                  "proved from any settled scroll state (the invariant itself is validated by correspondence only).",
+                  "(order, contiguity, heights) proved for one Draw from ANY state for gap = 0 or no upward scroll; for gap 0 and "
+                  "any fixed builder, no panic and 'selected item visible after SetCursor/NextItem/PrevItem + Draw' are proved for "
+                  "ALL histories (invariants Inv3/Inv4); for gap > 0 visibility is proved from any settled scroll state only.",
     "level_note": "Proved for all inputs/histories: simple_list_safe, simple_list_selected_visible, pager_complete, "
-                  "pager_offset_clamped, scrollbar_in_track, dyn_no_panic_empty. Proved with an explicit extra hypothesis "
+                  "pager_offset_clamped, scrollbar_in_track, dyn_no_panic_empty, dyn_no_panic (gap 0), dyn_cursor_visible and "
+                  "dyn_next_prev_visible (gap 0, all histories). Proved with an explicit extra hypothesis "
                   "(full statement kept as def): dyn_layout_partial (gap = 0 or no upward scroll; full statement refuted by "
                   "Witness.F119.dyn_layout_full_fails = finding F119c), dyn_cursor_visible_partial / dyn_next_prev_visible_partial "
-                  "(state assumed settled; full statement dyn_cursor_visible_full open). Validated by correspondence only: "
-                  "Dynamic.Draw no-panic and visibility over whole histories with a fixed builder (oracle evaluated on the real "
-                  "code on every generated history; two recorded findings F119b/F119c), what Println/SetCell do with the rows. "
+                  "(any gap >= 0, state assumed settled; dyn_cursor_visible_full for gap > 0 open). Validated by correspondence only: "
+                  "Dynamic with gap > 0 or with items replaced during the history (oracle evaluated on the real "
+                  "code on every generated history; recorded findings F119b-e), what Println/SetCell do with the rows. "
                   "Model tied to source by Gen/ListFacts.lean (index expressions translated, Draw/Layout/scrollbar bodies "
                   "pinned statement by statement, Dynamic's methods pinned by digest, three repair facts as Bools) and by the "
                   "public-API correspondence (0 mismatches allowed).",
